@@ -104,6 +104,7 @@ def run_flow(grant, generator, supported, client_scope, requested, original, pla
         for c in store.clients.values():
             c.update_metadata(scope=client_scope)
         store.tokens[:] = []
+    srv.transport = TRANSPORT       # framework-free, or behind the repository's Flask / Django glue (impl/transports.py)
     hdr = S.basic_header("c1", "sec")
     tok_uri0 = "https://as.example/token"
     tok_uri = uri_scope(tok_uri0, requested) if grant in ("password", "client_credentials", "refresh", "jwt_bearer") else tok_uri0
@@ -206,11 +207,18 @@ def run(ctx):
     run_overlapping(ctx, m)
 
 
+TRANSPORT = "neutral"
+
+
 def check_cell(ctx, m, grant, gen, sup, cs, req, orig, placement, shared=None):
+        global TRANSPORT
+        from impl import transports as T
+        TRANSPORT = T.pick(grant, gen, sup, cs, req, orig, placement)
+        ctx.count("transport:" + TRANSPORT)
         got = run_flow(grant, gen, sup, cs, req, orig, placement, shared)
         a = {"grant": grant, "generator": gen, "supported": sup or [], "client_scope": cs, "requested": req, "original": orig}
         mod = m.call("issue", a)
-        case = dict(a, supported=sup, placement=placement)
+        case = dict(a, supported=sup, placement=placement, transport=TRANSPORT)
         if shared is not None:
             case["history"] = list(shared[0].history)
             shared[0].history.append([grant, cs, req])
